@@ -276,11 +276,18 @@ impl Check for C02 {
         } else {
             HoleVariant::OrderDirect
         };
+        let has_lib = cfg.f_lib;
         let mut case = ProgCase::generate(rng, cfg, variant, "v");
         if rng.chance(0.3) {
             case.module_path = Some("/p/main.ts".into());
         }
-        if rng.chance(0.3) {
+        if !has_lib && rng.chance(0.3) {
+            // first use of the internal SOURCE module lib:util is a re-export in the middle of the
+            // body (imports are hoisted, re-exports instantiate the module where they stand), right
+            // after a value was exported by expression
+            let at = 3.min(case.tree.kids.len());
+            case.tree.kids.insert(at, Node::leaf(format!("export default {{ dflt: {}, l: [{{ m: 1 }}], deep: {{ v: 42, list: [1, 2, 3] }} }};\nexport {{ seed as lib_seed, mk as lib_mk }} from \"lib:util\";\nconst __after: any[] = [{{}}, {{ z: [1] }}];", rng.below(100))));
+        } else if rng.chance(0.3) {
             // a value exported by expression has no binding: only the export table holds it
             // while the rest of the program allocates (script and module mode)
             let at = 3.min(case.tree.kids.len());
